@@ -14,7 +14,7 @@ from ..callgraph import KIND_PER_CALL, CallGraph, entry_points
 from ..effects import ALLOWED, FORBIDDEN, EffectAnalysis, bind_args
 from ..model import Repo
 from ..report import Report
-from ..util import chain, root_name, short, walk_body
+from ..util import AnalysisError, chain, norm, root_name, short, walk_body
 from .. import templates as T
 
 
@@ -27,6 +27,61 @@ def shared_write_obligations(repo: Repo, rep: Report, rid: str, roots_sets=("PAR
     roots = [k for s in roots_sets for k in ep[s]] + [f.key for f in tfuncs]
     clo = cg.closure(roots)
     return cg, ea, ep, roots, clo
+
+
+MUTATORS_IN_PLACE = ("append", "extend", "insert", "pop", "remove", "clear", "sort", "reverse", "add", "discard", "update", "setdefault", "popitem", "__setitem__")
+
+
+def param_mutations(fn: ast.FunctionDef, params: list[str]) -> list[tuple[ast.AST, str]]:
+    """In-place mutations of a parameter object: mutator method calls, item / slice stores and deletes (re-binding the name is not a mutation)."""
+    out = []
+    # only an unconditional re-binding at the top of the function makes the name a different object on every path
+    rebound = {t.id for st in fn.body if isinstance(st, ast.Assign) for t in st.targets if isinstance(t, ast.Name)}
+    for x in ast.walk(fn):
+        if isinstance(x, ast.Call) and isinstance(x.func, ast.Attribute) and x.func.attr in MUTATORS_IN_PLACE and isinstance(x.func.value, ast.Name) \
+                and x.func.value.id in params and x.func.value.id not in rebound:
+            out.append((x, x.func.value.id))
+        elif isinstance(x, (ast.Assign, ast.AugAssign, ast.Delete)):
+            tg = x.targets if isinstance(x, (ast.Assign, ast.Delete)) else [x.target]
+            for t in tg:
+                if isinstance(t, ast.Subscript) and isinstance(t.value, ast.Name) and t.value.id in params and t.value.id not in rebound:
+                    out.append((x, t.value.id))
+    return out
+
+
+def read_only_value_rule(repo: Repo, rep: Report, rid: str) -> None:
+    rep.rule(rid, "dumping is read-only on the value: no _write / _write_array / _write_0 implementation mutates the object it is given in place (values, "
+                  "and in particular default values, are shared between instances and threads); descriptors (classes with __get__) keep no state on "
+                  "themselves - one descriptor object serves every type and every thread")
+    fx = param_mutations(ast.parse("def _write_0(cls, stream, array):\n    array.append(cls.__default__())\n    try:\n        return 1\n    finally:\n        array.pop()\n").body[0], ["array"])
+    if len(fx) != 2:
+        raise AnalysisError("parameter-mutation matcher no longer recognises its positive fixture")
+    n = 0
+    for fi in repo.all_functions():
+        if fi.name in ("_write", "_write_array", "_write_0") and len(fi.params) >= 3:
+            n += 1
+            bad = param_mutations(fi.node, fi.params[2:])
+            rep.check(not bad, rid, f"{fi.key}:read-only value", "the value is only read",
+                      f"{fi.qualname} mutates its argument '{bad[0][1] if bad else ''}' in place ('{short(bad[0][0], 50) if bad else ''}'): the caller's list - possibly "
+                      "the default value shared by every instance of the structure type - changes while it is being dumped, so a concurrent dump of another "
+                      "instance sees the extra / missing element", fi.loc(bad[0][0]) if bad else fi.loc())
+    rep.floor(rid, "write slot implementations", n, 20)
+    m = 0
+    for ci in repo.classes.values():
+        if "__get__" not in ci.methods:
+            continue
+        m += 1
+        for name in ("__get__", "__call__", "__set_name__"):
+            f = ci.methods.get(name)
+            if f is None or name == "__set_name__":
+                continue
+            me = f.self_name
+            stores = [x for x in walk_body(f.node.body) if isinstance(x, (ast.Assign, ast.AugAssign)) and any(
+                isinstance(t, ast.Attribute) and norm(t.value) == me for t in (x.targets if isinstance(x, ast.Assign) else [x.target]))]
+            rep.check(not stores, rid, f"{f.key}:stateless descriptor", "binds by returning a new object",
+                      f"descriptor {ci.name}.{name} stores on itself ('{short(stores[0], 50) if stores else ''}'): the one descriptor object is shared by all types of all "
+                      "cstruct instances, so two threads that look up and call the attribute interleaved get each other's owner / instance", f.loc(stores[0]) if stores else f.loc())
+    rep.floor(rid, "descriptor classes", m, 1)
 
 
 def run(repo: Repo, rep: Report, tier: str) -> None:
@@ -151,5 +206,7 @@ def run(repo: Repo, rep: Report, tier: str) -> None:
     from .memo import memo_rule
 
     memo_rule(repo, rep, "C15.R4")
+    read_only_value_rule(repo, rep, "C15.R5")
+
 
 
